@@ -39,6 +39,29 @@ fn one<E: IntError>(mk: &dyn Fn() -> Result<Tok, E>, is_ok: bool, x: i64, payloa
     row
 }
 
+/// a ZERO-SIZED success payload with a destructor (a permit, a guard): nothing to see in the slot's bytes, but the value must still be MOVED into the
+/// slot — not destroyed by the encoder — and come out of the decoder exactly once
+fn one_zst(is_ok: bool, mon: &mut Mon, k: usize) -> Vec<i64> {
+    let mk = || -> Result<EZ, ()> { if is_ok { Ok(EZ) } else { Err(()) } };
+    let mut slot = MaybeUninit::<EZ>::uninit();
+    let _ = take_drops();
+    let code = if k % 2 == 0 { into_int_out_result(mk(), &mut slot) } else { mk().into_int_out_result(&mut slot) };
+    let d = take_drops();
+    if !d.is_empty() { mon.fail(format!("case{} encoding a zero-sized success payload ran {} destructor(s): the value was destroyed instead of being moved into the caller's slot", k, d.len())); }
+    if (code == 0) != is_ok { mon.fail(format!("case{} code {} for is_ok={}", k, code, is_ok)); }
+    let mut row = vec![code as i64, is_ok as i64];
+    let r: Result<EZ, ()> = unsafe { from_int_result(code, slot) };
+    match &r { Ok(_) => { row.extend([0, 0]); if !is_ok { mon.fail(format!("case{} decoded Ok from Err", k)); } } Err(_) => { row.extend([1, -1]); if is_ok { mon.fail(format!("case{} decoded Err from Ok", k)); } } }
+    drop(r);
+    let d = take_drops();
+    if d.len() != is_ok as usize { mon.fail(format!("case{} zero-sized success payload destroyed {} times after decoding (expected {})", k, d.len(), is_ok as usize)); }
+    let code2 = if k % 2 == 0 { into_int_result(mk()) } else { IntResult::into_int_result(mk()) };
+    let _ = take_drops();
+    let e2: Result<(), ()> = from_int_result_empty(code2);
+    row.extend([code2 as i64, e2.is_err() as i64]);
+    row
+}
+
 pub fn run(_params: &[i64], ops: &Rows, mon: &mut Mon) -> Rows {
     let mut out = Vec::new();
     for (k, op) in ops.iter().enumerate() {
@@ -58,6 +81,7 @@ pub fn run(_params: &[i64], ops: &Rows, mon: &mut Mon) -> Rows {
                 if shape == 1 && x != 0 && (r[0] != x || r[3] != x) { mon.fail(format!("case{} os code {} became {} / {}", k, x, r[0], r[3])); }
                 r
             }
+            3 => one_zst(shape == 0, mon, k),
             1 => { let mk = || -> Result<Tok, ()> { if shape == 0 { Ok(Tok::mk(x)) } else { Err(()) } }; one(&mk, shape == 0, x, &|_| -1, mon, k) }
             _ => { let mk = || -> Result<Tok, core::fmt::Error> { if shape == 0 { Ok(Tok::mk(x)) } else { Err(core::fmt::Error) } }; one(&mk, shape == 0, x, &|_| -1, mon, k) }
         };
